@@ -48,6 +48,7 @@ fn main() {
             let code = match rf.engine.as_str() {
                 "R" => replay_with(&reader::ReaderEngine, &rf, &path),
                 "Rc" => reader::replay_concurrent(&rf, &path),
+                "Rx2" => reader::replay_twice(&rf, &path),
                 "K16" => {
                     let c = replay_with(&client::ClientEngine { prop: "C16" }, &rf, &path);
                     client::pty::cleanup_workdirs();
